@@ -232,6 +232,8 @@ package mocker
 // later Return/When would only extend an orphaned configuration.
 //@ ghost var running map[*baseMocker]interface{}
 //@ ghost var stub_of map[*baseMocker]interface{}
+// when_shape(w): what CreateWhen establishes and every builder keeps about a When configuration
+//@ pure func when_shape(w *When) bool = w.funcTyp != nil && rt_kind(w.funcTyp) == reflect.Func && 0 <= len(w.matches) && len(w.matches) < 0x10000
 //@ pure func mocker_inv(m *baseMocker) bool = m != nil && (m.when != nil ==> running[m] == stub_of[m] && !m.canceled)
 
 // ---- C01/C02/C12 at the mocker layer: what "the target runs imp" means in the text segment ------------------------------
@@ -411,6 +413,7 @@ package mocker
 //@ func (m *DefMocker) Return
 //@   props C12 C01
 //@   requires receiver: m != nil && m.baseMocker != nil && !m.baseMocker.canceled
+//@   requires existing_configuration_well_formed: m.baseMocker.when != nil ==> when_shape(m.baseMocker.when)
 //@   requires target_is_a_function: m.funcDef != nil && rt_kind(rt_of(typeof(m.funcDef))) == reflect.Func && len(value) < 0x10000
 //@   requires inv: mocker_inv(m.baseMocker)
 //@   requires patch_state: patch_state_ok()
@@ -594,6 +597,7 @@ package mocker
 //@ func (m *DefMocker) Returns
 //@   props C13 C12
 //@   requires receiver: m != nil && m.baseMocker != nil
+//@   requires existing_configuration_well_formed: m.baseMocker.when != nil ==> when_shape(m.baseMocker.when)
 //@   requires target_is_a_function: m.funcDef != nil && rt_kind(rt_of(typeof(m.funcDef))) == reflect.Func && len(values) < 0x10000
 //@   requires patch_state: patch_state_ok()
 //@   assigns m.baseMocker.when, m.baseMocker.guard, m.baseMocker.imp, m.baseMocker.funcDef, running[m.baseMocker], stub_of[m.baseMocker], textmem, perm, mapof(patch.patches), anyfield(patch.patch, guard), anyfield(patch.Guard, applied),
@@ -605,6 +609,7 @@ package mocker
 //@ func (m *DefMocker) When
 //@   props C13 C12
 //@   requires receiver: m != nil && m.baseMocker != nil
+//@   requires existing_configuration_well_formed: m.baseMocker.when != nil ==> when_shape(m.baseMocker.when)
 //@   requires target_is_a_function: m.funcDef != nil && rt_kind(rt_of(typeof(m.funcDef))) == reflect.Func && len(specArg) < 0x10000
 //@   requires patch_state: patch_state_ok()
 //@   assigns m.baseMocker.when, m.baseMocker.guard, m.baseMocker.imp, m.baseMocker.funcDef, running[m.baseMocker], stub_of[m.baseMocker], textmem, perm, mapof(patch.patches), anyfield(patch.patch, guard), anyfield(patch.Guard, applied),
@@ -616,6 +621,7 @@ package mocker
 //@ func (m *MethodMocker) Return
 //@   props C13 C12
 //@   requires receiver: m != nil && m.baseMocker != nil && m.structDef != nil
+//@   requires existing_configuration_well_formed: m.baseMocker.when != nil ==> when_shape(m.baseMocker.when)
 //@   requires target_is_a_method: m.methodIns != nil && rt_kind(rt_of(typeof(m.methodIns))) == reflect.Func && len(value) < 0x10000
 //@   requires patch_state: patch_state_ok()
 //@   assigns m.baseMocker.when, m.baseMocker.guard, m.baseMocker.imp, m.baseMocker.funcDef, running[m.baseMocker], stub_of[m.baseMocker], textmem, perm, mapof(patch.patches), anyfield(patch.patch, guard), anyfield(patch.Guard, applied),
@@ -627,6 +633,7 @@ package mocker
 //@ func (m *MethodMocker) Returns
 //@   props C13 C12
 //@   requires receiver: m != nil && m.baseMocker != nil && m.structDef != nil
+//@   requires existing_configuration_well_formed: m.baseMocker.when != nil ==> when_shape(m.baseMocker.when)
 //@   requires target_is_a_method: m.methodIns != nil && rt_kind(rt_of(typeof(m.methodIns))) == reflect.Func && len(values) < 0x10000
 //@   requires patch_state: patch_state_ok()
 //@   assigns m.baseMocker.when, m.baseMocker.guard, m.baseMocker.imp, m.baseMocker.funcDef, running[m.baseMocker], stub_of[m.baseMocker], textmem, perm, mapof(patch.patches), anyfield(patch.patch, guard), anyfield(patch.Guard, applied),
@@ -638,6 +645,7 @@ package mocker
 //@ func (m *MethodMocker) When
 //@   props C13 C12
 //@   requires receiver: m != nil && m.baseMocker != nil && m.structDef != nil
+//@   requires existing_configuration_well_formed: m.baseMocker.when != nil ==> when_shape(m.baseMocker.when)
 //@   requires patch_state: patch_state_ok()
 //@   assigns m.baseMocker.when, m.baseMocker.guard, m.baseMocker.imp, m.baseMocker.funcDef, running[m.baseMocker], stub_of[m.baseMocker], textmem, perm, mapof(patch.patches), anyfield(patch.patch, guard), anyfield(patch.Guard, applied),
 //@     | mutex_held[addr(patch.patchesLock)], rw_wheld[addr(memory.memoryAccessLock)], rw_rheld[addr(memory.memoryAccessLock)], placeholder_target[m.baseMocker.origin], varval, anyfield(When, matches), anyfield(When, defaultReturns), anyfield(When, curMatch), anyfield(BaseMatcher, results), m.baseMocker.when.matches[len(m.baseMocker.when.matches) : cap(m.baseMocker.when.matches)]
